@@ -29,8 +29,9 @@ import (
 // ---- file system -------------------------------------------------------------------------
 
 type verifFSNode struct {
-	isDir bool
-	data  []byte
+	isDir   bool
+	symlink bool // a dangling symbolic link: listed, never followed
+	data    []byte
 }
 
 type verifOpenFile struct {
@@ -130,9 +131,10 @@ func (s *verifFileSystem) children(dir string) []string {
 }
 
 type verifFileInfo struct {
-	name  string
-	size  int64
-	isDir bool
+	name    string
+	size    int64
+	isDir   bool
+	symlink bool
 }
 
 func (s verifFileInfo) Name() string { return s.name }
@@ -140,6 +142,9 @@ func (s verifFileInfo) Size() int64  { return s.size }
 func (s verifFileInfo) Mode() fs.FileMode {
 	if s.isDir {
 		return fs.ModeDir | 0o755
+	}
+	if s.symlink {
+		return fs.ModeSymlink | 0o777
 	}
 	return 0o600
 }
@@ -159,7 +164,7 @@ func verifOsStat(name string) (os.FileInfo, error) {
 	}
 	p := verifClean(name)
 	node := verifFS.nodes[p]
-	if node == nil {
+	if node == nil || node.symlink {
 		return nil, verifNotExist("stat", name)
 	}
 	return verifFileInfo{name: filepath.Base(p), size: int64(len(node.data)), isDir: node.isDir}, nil
@@ -169,7 +174,24 @@ func verifOsLstat(name string) (os.FileInfo, error) {
 	if verifFS == nil {
 		return os.Lstat(name)
 	}
+	if node := verifFS.nodes[verifClean(name)]; node != nil && node.symlink {
+		return verifFileInfo{name: filepath.Base(verifClean(name)), symlink: true}, nil
+	}
 	return verifOsStat(name)
+}
+
+// verifOsSymlink plants a dangling symbolic link (harness use only: the retriever never
+// creates links).
+func verifOsSymlink(target, name string) error {
+	if verifFS == nil {
+		return os.Symlink(target, name)
+	}
+	p := verifClean(name)
+	if verifFS.nodes[p] != nil || !verifFS.parentIsDir(p) {
+		return &fs.PathError{Op: "symlink", Path: name, Err: fs.ErrExist}
+	}
+	verifFS.nodes[p] = &verifFSNode{symlink: true}
+	return nil
 }
 
 func verifOsIsNotExist(err error) bool {
@@ -198,7 +220,7 @@ func verifOsReadDir(name string) ([]os.DirEntry, error) {
 	var out []os.DirEntry
 	for _, child := range verifFS.children(p) {
 		c := verifFS.nodes[child]
-		out = append(out, verifFileInfo{name: filepath.Base(child), size: int64(len(c.data)), isDir: c.isDir})
+		out = append(out, verifFileInfo{name: filepath.Base(child), size: int64(len(c.data)), isDir: c.isDir, symlink: c.symlink})
 	}
 	return out, nil
 }
@@ -560,7 +582,7 @@ walk:
 			}
 		}
 		c := verifFS.nodes[candidate]
-		err := fn(candidate, verifFileInfo{name: filepath.Base(candidate), size: int64(len(c.data)), isDir: c.isDir}, nil)
+		err := fn(candidate, verifFileInfo{name: filepath.Base(candidate), size: int64(len(c.data)), isDir: c.isDir, symlink: c.symlink}, nil)
 		if err == fs.SkipDir {
 			if c.isDir {
 				skipped = append(skipped, candidate)
